@@ -239,6 +239,12 @@ def run(ctx):
             # ... and through the read() path, where the buffer (not the window) has to grow: a compressed file and a pipe
             for tr in (["pipe", rng.choice(["gz", "bz2", "xz"])] if ctx.quick else STREAMS):
                 add("arpa", data, [name, "via:" + tr], t, [], transport=tr)
+    # a long vocabulary word first in the unigram section, loaded so that the vocabulary strings are copied while loading:
+    # enumerate_vocab set, and ARPA -> binary conversion (write_mmap, include_vocab = the default of build_binary)
+    for data, name in c10gen.long_word_mutants(rng, bases[rng.below(2)][1], ctx.pick(5, 11)):
+        for t in (rng.choice("01"), rng.choice("23"), rng.choice("45")):
+            add("arpa", data, [name], t, ["enum"])
+            add("arpa", data, [name], t, ["build=" + os.path.join(ctx.scratch, "out%d.bin" % len(cases))])
     # damaged compressed containers around a valid text: truncated streams (header / middle / trailer), a changed byte, appended
     # bytes, two members; as a file and, for some, through a pipe.  Oracle only (success or exception, no hang): the outcome depends
     # on the decompression library, which is not modelled.
@@ -426,7 +432,7 @@ def run(ctx):
                             "deleted / duplicated / swapped / moved lines of every kind, wrong / malformed / overflowing / consistent counts, count-line syntax, "
                             "42 broken-number spellings (incl. the float32 zero and overflow thresholds) in probability and back-off position, unknown words, dropped / "
                             "duplicated / swapped sections and headers, missing \\data\\ / \\end\\, stray bytes, field-structure damage, missing <s> </s> <unk>, "
-                            "duplicate unigrams, pruned contexts, lines / words / tokens longer than FilePiece's 1 MB + 1 page mapping window (comment, blank line, vocabulary word, junk number),  CR/LF variants, foreign magic numbers, a 7th order, trailing data, degenerate tiny files; (b) byte-level "
+                            "duplicate unigrams, pruned contexts, lines / words / tokens longer than FilePiece's 1 MB + 1 page mapping window (comment, blank line, vocabulary word, junk number), a 33 .. 200000-byte vocabulary word as the first unigram loaded with enumerate_vocab and with write_mmap (every structure),  CR/LF variants, foreign magic numbers, a 7th order, trailing data, degenerate tiny files; (b) byte-level "
                             "flips / inserts / deletes; (c) truncations and header-field mismatches (magic, version, sanity block, order, multiplier, type, vocabulary flag, "
                             "search version, incomplete marker) of valid binary files of all six types, offered to the matching class, another class and LoadVirtual, "
                             "through LAZY / POPULATE_OR_LAZY / POPULATE_OR_READ / READ; (d) truncations of the memory image of binaries built without vocabulary strings "
